@@ -132,8 +132,10 @@ func c06(c *ctx) {
 					cmpSpec{"memo==RLPV2", token.EQL, pathHasSuffix(".Memo"), pathIs(rlpConst)},
 					cmpSpec{"nonce<floor", token.LSS, pathHasSuffix(".Nonce"), pathContains(".GetAccount(")},
 				),
-				target:    tgtReturnVal("success-return", 0, true),
-				reqs:      func(string) []string { return []string{"@memo==RLPV2=F|GetAccount.ok", "@memo==RLPV2=F|@nonce<floor=F"} },
+				target: tgtReturnVal("success-return", 0, true),
+				reqs: func(string) []string {
+					return []string{"@memo==RLPV2=F|GetAccount.ok", "@memo==RLPV2=F|@nonce<floor=F"}
+				},
 				minTarget: 1,
 			})
 			c.mpt(mptSpec{
@@ -235,7 +237,9 @@ func c06(c *ctx) {
 		var canon ssa.CallInstruction
 		for _, cs := range callsIn(checkTx, false, bytesEqual) {
 			a, b := c.p.path(cs.Common().Args[0]), c.p.path(cs.Common().Args[1])
-			isM := func(s string) bool { return strings.HasPrefix(s, "lib.Marshal(&new(Transaction)") && strings.HasSuffix(s, "#0") }
+			isM := func(s string) bool {
+				return strings.HasPrefix(s, "lib.Marshal(&new(Transaction)") && strings.HasSuffix(s, "#0")
+			}
 			if (isM(a) && b == "$1") || (isM(b) && a == "$1") {
 				canon = cs
 			}
